@@ -43,9 +43,12 @@ class Ctx:
         if sample is not None and len(self.samples) < 3:
             self.samples.append(sample)
 
-    def fail(self, signature, what, case, expected=None, observed=None):
+    def fail(self, signature, what, case, expected=None, observed=None, correspondence_only=False):
+        """A failing case. `correspondence_only`: model and implementation differ on an observable that is NOT part of the
+        property's statement (e.g. the order of status polls): the correspondence no longer checks, but this input does not
+        by itself show the property failing — reported as a VIOLATION ending with no-failing-input-found."""
         self.failures.append({"signature": signature, "what": what, "case": case,
-                              "expected": expected, "observed": observed})
+                              "expected": expected, "observed": observed, "correspondence_only": bool(correspondence_only)})
 
     def quick(self):
         return self.tier == "quick"
@@ -158,8 +161,16 @@ def main(argv=None):
         if sig in seen_sig:
             continue
         seen_sig.add(sig)
-        path = write_replay(pid, {"property": pid, "kind": "failing-input", **fl, "seed": seed, "tier": args.tier})
-        lines.append(f"VIOLATION property={pid} replay={path}")
+        if fl.get("correspondence_only"):
+            path = write_replay(pid, {"property": pid, "kind": "broken-correspondence",
+                                      "correspondence": f"{sig}: {fl['what']}",
+                                      "note": "model and implementation differ on this input on an observable outside the property's "
+                                              "statement; no input on which the property itself fails was found",
+                                      **fl, "seed": seed, "tier": args.tier})
+            lines.append(f"VIOLATION property={pid} replay={path} no-failing-input-found")
+        else:
+            path = write_replay(pid, {"property": pid, "kind": "failing-input", **fl, "seed": seed, "tier": args.tier})
+            lines.append(f"VIOLATION property={pid} replay={path}")
         violations += 1
     for sig, fl in known_hit.items():
         print(f"KNOWN-FINDING: property={pid} {known_sigs[sig]['what']} [signature={sig}]")
